@@ -74,6 +74,7 @@ type World struct {
 	Faults   *proto.FaultPlan // fault plan for the next lifetime's boot
 	StderrKeep []string
 	lastEndCrashed bool
+	crashLabel     string
 	CurStep    int   // set by executors: index of the scenario step being executed
 	StepOfCmd  []int // step index of every command issued
 }
@@ -85,6 +86,16 @@ func NewWorld(tag string, k Knobs) *World {
 	os.RemoveAll(dir)
 	os.MkdirAll(dir, 0755)
 	return &World{Dir: dir, Knobs: k, Stats: NewRunStats(), Detail: 1}
+}
+
+// Sub creates another world (own directory and lifetimes) whose statistics are
+// accumulated into this world's: used by checks that run one workload many
+// times (fault enumeration).
+func (w *World) Sub(tag string) *World {
+	s := NewWorld(filepath.Base(w.Dir)+"-"+tag, w.Knobs)
+	s.Stats = w.Stats
+	s.Detail = w.Detail
+	return s
 }
 
 // ScratchRoot is where run directories live (tmpfs); removed as each run ends.
@@ -136,6 +147,11 @@ func (w *World) absorb(res *proto.Result) {
 	for k, v := range res.Faults {
 		w.Stats.Faults[k] += v
 	}
+	w.Stats.Writes += len(res.WriteLog)
+	if res.Crashed {
+		w.lastEndCrashed = true
+		w.crashLabel = res.CrashLbl
+	}
 	if res.NowMS > w.lastNow {
 		w.Stats.SimMS += res.NowMS - w.lastNow
 		w.lastNow = res.NowMS
@@ -178,7 +194,8 @@ func (w *World) Start() (*proto.Result, error) {
 	}
 	w.Faults = nil
 	w.lastNow = 0
-	defer func() { w.lastEndCrashed = false }()
+	afterCrash := w.lastEndCrashed
+	w.lastEndCrashed = false
 	c, res, err := StartChild(cfg, ChildOpts{
 		MapSeed:    w.Knobs.MapSeed,
 		UUIDSeed:   w.Knobs.UUIDSeed*131 + uint64(w.lifeIdx),
@@ -193,8 +210,11 @@ func (w *World) Start() (*proto.Result, error) {
 		return nil, err
 	}
 	w.absorb(res)
+	if res.Crashed {
+		return res, ErrPlannedCrash
+	}
 	if !res.OK {
-		be := &BootError{Lifetime: w.lifeIdx, Err: res.Err, Wedged: res.Wedged, Stacks: res.Stacks, Stderr: c.StderrTail(3000), AfterCrash: w.lastEndCrashed}
+		be := &BootError{Lifetime: w.lifeIdx, Err: res.Err, Wedged: res.Wedged, Stacks: res.Stacks, Stderr: c.StderrTail(3000), AfterCrash: afterCrash}
 		c.Kill()
 		return res, be
 	}
@@ -222,6 +242,12 @@ func (w *World) Discard() {
 	}
 }
 
+// LastCrashed reports whether the most recent lifetime ended by a planned crash.
+func (w *World) LastCrashed() bool { return w.lastEndCrashed }
+
+// CrashLabel returns the label of the write at which the planned crash fired.
+func (w *World) CrashLabel() string { return w.crashLabel }
+
 // MarkCrashed records that the current lifetime ended by a planned crash.
 func (w *World) MarkCrashed() { w.lastEndCrashed = true }
 
@@ -248,6 +274,9 @@ func (w *World) Do(cmd proto.Cmd) (*proto.Result, error) {
 		return nil, err
 	}
 	w.absorb(res)
+	if res.Crashed {
+		return res, ErrPlannedCrash
+	}
 	return res, nil
 }
 
@@ -370,6 +399,21 @@ func (w *World) Barrier() error {
 		return &WedgeError{What: "barrier", Stacks: res.Stacks}
 	}
 	return nil
+}
+
+// SetFaults installs a fault plan in the running lifetime (crash counts are relative to now).
+func (w *World) SetFaults(f *proto.FaultPlan) error {
+	_, err := w.Do(proto.Cmd{Op: "faults", Faults: f})
+	return err
+}
+
+// Writes returns the number of mutating store/log calls of the current lifetime so far.
+func (w *World) Writes() (int, []string, error) {
+	res, err := w.Do(proto.Cmd{Op: "faults"})
+	if err != nil {
+		return 0, nil, err
+	}
+	return res.Writes, res.WriteLog, nil
 }
 
 func (w *World) Sleep(ms int64) error {
